@@ -62,9 +62,11 @@ impl GCheck {
             GMode::Diagnostics => {}
             GMode::Outline => {
                 c.paste_names = false;
+                c.forward_decls = true;
             }
             GMode::Hover => {
                 c.docs = true;
+                c.forward_decls = true;
             }
         }
         c
